@@ -58,7 +58,7 @@ def gen_descriptions(rnd, tier):
         out.append(('abort', ('abort', v, v, 255 - v, 2, v)))
         out.append(('rlrq', ('rlrq', v, [0, 1, 2 ** 32 - 1][v % 3])))
         out.append(('rlrp', ('rlrp', v, [2 ** 31, 5, 0][v % 3])))
-    for _ in range(200 if tier == 'quick' else 5000):
+    for _ in range(200 if tier == 'quick' else 40000):
         subs = [sub(rnd.choice(kinds)) for _ in range(rnd.randrange(0, 7))]
         rq = rnd.random() < 0.5
         items = [('appCtx', b8(), uid())] if rnd.random() < 0.9 else []
